@@ -20,7 +20,13 @@ Judged directly on the implementation (independently of the model, from the stat
   (d) a call arriving at the other engine's checker, or attributed to another decision;
   (e) a sync and an async checker with the same data give the same decisions and calls.
 Compared with the extracted model (runner relcond): the ordered call log and the Decision — a difference
-there only is broken correspondence (followed by a search over data variants for a failing input)."""
+there only is broken correspondence (followed by a search over data variants for a failing input).
+
+Case kind "local" (tie of the C13 x C12 composition, theories/RelLocal.v): the checker is a real
+LocalRelationshipChecker over a real InMemoryRelationshipStore (thin recording subclass that only delegates).
+Every lookup the engine made is judged by the C12 model (runner rebac) as c12.py judges a check; the Decision is
+compared with the C13 model whose relationship table holds the C12 MODEL's answers (a permit the composed model
+does not give is a violation, c13_local_permit_rule_derivable); evaluate_sync and evaluate_async must agree."""
 import asyncio
 import contextvars
 import copy
@@ -35,6 +41,7 @@ import threading
 import time
 
 import lib
+import c12   # the local checker's side of the composition: store / rule-map / registry generators, model entry, judgement
 
 RUNNER = "relcond"
 FID = "F25"
@@ -806,8 +813,160 @@ def run_hash_impl(c):
     return {"equal": _ctx_hash(copy.deepcopy(c["a"])) == _ctx_hash(copy.deepcopy(c["b"]))}
 
 
+# --------------------------------------------------------------------------------------------
+# the relationship checker is the LOCAL one (tie of the C13 x C12 composition, theories/RelLocal.v)
+#
+#   case = {"kind": "local", "store": [[subject, relation, resource, caveat | None], ...],
+#           "rules": rule map in c12's case language, "reg": {caveat name: predicate kind} | None,
+#           "limits": [max_depth | None, max_nodes | None]   (None = constructor default; the deadline is always
+#                     LOCAL_DEADLINE_MS, far beyond any run: wall-clock time never decides an answer),
+#           "policy", "strict", "api": "async" | "sync" | "sync_in_loop",
+#           "steps": [{"req": request, "add": [tuples granted before this decision] (optional),
+#                      "expect": {"allowed": bool, "lookups": [[s, r, o, ctx, answer], ...]} (corpus witnesses)}, ...]}
+# --------------------------------------------------------------------------------------------
+LOCAL_DEADLINE_MS = 600_000
+LOCAL_GENEROUS = [50, 10000]     # second limit setting of every model line, only to tell whether the case's limits bind
+LOCAL_THEOREMS = ["c13_local_bridge", "c13_local_caveats_on_merged_ctx", "c13_rel_never_true_without_derivation",
+                  "c13_rel_holds_iff_derivable", "c13_local_applicable_only_if_derivable",
+                  "c13_local_permit_rests_on_derivation", "c13_local_permit_rule_derivable"]
+LOCAL_PREDS = dict(c12.HPREDS)
+LOCAL_PREDS["office"] = lambda ctx: ctx["ip"] == "10.0.0.1"      # the caveat of the RelLocal.v example (KeyError without "ip")
+
+
+def local_pred_value(kind, ctx):
+    """what bool(pred(ctx)) is, by table (c12's, plus the kind added here)"""
+    if kind == "office":
+        if not isinstance(ctx, dict) or "ip" not in ctx:
+            return "raise"
+        return ctx["ip"] == "10.0.0.1"
+    return c12.pred_value(kind, ctx)
+
+
+def local_model_reg(reg, ctx):
+    """the registry of one call as the C12 model takes it: every predicate's value on the call's (merged) context"""
+    out = {}
+    for name, kind in (reg or {}).items():
+        v = local_pred_value(kind, ctx)
+        if v is not c12.ABSENT:
+            out[name] = v
+        # the table must describe the test-side predicate objects (a disagreement is a defect of this harness)
+        pred = LOCAL_PREDS[kind]
+        try:
+            real = c12.ABSENT if pred is None else bool(pred(copy.deepcopy(ctx)))
+        except Exception:  # noqa: BLE001
+            real = "raise"
+        if real is not v and real != v:
+            raise RuntimeError("harness: predicate table disagrees with predicate %r on %r: %r / %r" % (kind, ctx, v, real))
+    return out
+
+
+def local_world(c):
+    """a real store, a real LocalRelationshipChecker over it (recording subclass that only delegates) and a Guard"""
+    from rbacx.rebac import local as L
+    st = L.InMemoryRelationshipStore()
+    tuples = []
+
+    def add(ts):
+        for s, r, o, cav in ts or []:
+            if cav is None:
+                st.add(s, r, o)
+            else:
+                st.add(s, r, o, caveat=cav)
+            tuples.append([s, r, o, cav])
+
+    add(c["store"])
+    calls = []
+    tl = threading.local()
+
+    class RecordingLocal(L.LocalRelationshipChecker):
+        def check(self, subject, relation, resource, *, context=None):
+            if getattr(tl, "in_batch", False):
+                return super().check(subject, relation, resource, context=context)
+            e = {"eng": 0, "dec": DEC.get(), "q": [subject, relation, resource, copy.deepcopy(context)], "how": "plain",
+                 "via": "check", "ctx_is_dict": isinstance(context, dict), "ntuples": len(tuples)}
+            calls.append(e)
+            try:
+                a = super().check(subject, relation, resource, context=context)
+            except Exception as ex:  # noqa: BLE001
+                e["ans"], e["resp"] = ["!raise", type(ex).__name__, str(ex)[:80]], ["raise"]
+                raise
+            e["ans"], e["resp"] = a, ["ret", a]
+            if context != e["q"][3]:
+                e["ctx_changed"] = True
+            return a
+
+        def batch_check(self, triples, *, context=None):
+            triples = list(triples)
+            es = [{"eng": 0, "dec": DEC.get(), "q": [t[0], t[1], t[2], copy.deepcopy(context)], "how": "plain", "via": "batch",
+                   "ctx_is_dict": isinstance(context, dict), "ntuples": len(tuples), "ans": ["!raise", "batch", ""],
+                   "resp": ["raise"]} for t in triples]
+            calls.extend(es)
+            tl.in_batch = True
+            try:
+                out = super().batch_check(triples, context=context)
+            finally:
+                tl.in_batch = False
+            for e, a in zip(es, list(out)):
+                e["ans"], e["resp"] = a, ["ret", a]
+            return out
+
+    md, mn = c.get("limits") or [None, None]
+    kw = {"deadline_ms": LOCAL_DEADLINE_MS}
+    if md is not None:
+        kw["max_depth"] = md
+    if mn is not None:
+        kw["max_nodes"] = mn
+    reg = None if c.get("reg") is None else {n: LOCAL_PREDS[k] for n, k in c["reg"].items()}
+    ck = RecordingLocal(st, rules=c12.conv_rules(L, c.get("rules")), caveat_registry=reg, **kw)
+    return {"guard": _guard(c["policy"], c.get("strict"), ck), "add": add, "calls": calls, "checker": ck}
+
+
+def run_local_impl(c):
+    """every step through the case's API in one world, and through the other of evaluate_sync / evaluate_async in a
+    second world built the same way (own store, checker and Guard)"""
+    api = c.get("api", "async")
+
+    def run(api):
+        w = local_world(c)
+        g, out = w["guard"], []
+
+        def take(d):
+            out.append({"decision": d, "calls": list(w["calls"])})
+            del w["calls"][:]
+
+        async def go():
+            for k, step in enumerate(c["steps"]):
+                w["add"](step.get("add"))
+                DEC.set(k)
+                try:
+                    if api == "sync_in_loop":
+                        d = dec_dict(g.evaluate_sync(*req_objs(step["req"])))
+                    else:
+                        d = dec_dict(await g.evaluate_async(*req_objs(step["req"])))
+                except Exception as e:  # noqa: BLE001
+                    d = ["Raise", type(e).__name__]
+                take(d)
+
+        if api == "sync":
+            for k, step in enumerate(c["steps"]):
+                w["add"](step.get("add"))
+                DEC.set(k)
+                try:
+                    d = dec_dict(g.evaluate_sync(*req_objs(step["req"])))
+                except Exception as e:  # noqa: BLE001
+                    d = ["Raise", type(e).__name__]
+                take(d)
+        else:
+            asyncio.run(go())
+        return out
+
+    return {"decisions": run(api), "twin": run("sync" if api == "async" else "async")}
+
+
 def run_impl_one(c):
     k = c.get("kind", "seq")
+    if k == "local":
+        return run_local_impl(c)
     if k == "seq":
         return run_seq_impl(c)
     if k == "conc":
@@ -943,15 +1102,74 @@ def model_nest(cases, impls):
     return out
 
 
+def local_store_at(c, k):
+    """the tuples in the store when step k is decided"""
+    out = [list(t) for t in c["store"]]
+    for step in c["steps"][:k + 1]:
+        out += [list(t) for t in step.get("add") or []]
+    return out
+
+
+def model_local(cases, impls):
+    """the C12 model (runner rebac, entry rebac.multi as c12.py uses it for check) asked every query of every step:
+    the canonical queries of the statement plus every lookup the engine really made (either world), each on ITS
+    context (the registry of a call = the predicates' values on that context), the step's store, the case's rules and
+    limits, a clock that never reaches the deadline.  Returns per case, per step: {query key: [outcome, visits,
+    within, answer under generous limits]} and the relationship table for the C13 model (the MODEL's answers)."""
+    lines, index = [], []
+    for ci, (c, i) in enumerate(zip(cases, impls)):
+        md, mn = c.get("limits") or [None, None]
+        lims = [c12.mlimit([md, mn, LOCAL_DEADLINE_MS, c12.START, [], c12.START]),
+                c12.mlimit(LOCAL_GENEROUS + [LOCAL_DEADLINE_MS, c12.START, [], c12.START])]
+        for k, step in enumerate(c["steps"]):
+            try:
+                qs = spec_queries(c["policy"], step["req"])
+            except Exception:  # noqa: BLE001
+                qs = []
+            qs = qs + [x["q"] for x in i["decisions"][k]["calls"]] + [x["q"] for x in i["twin"][k]["calls"]]
+            groups, seen = {}, set()
+            for q in qs:
+                kq = qkey(*q)
+                if kq in seen:
+                    continue
+                seen.add(kq)
+                groups.setdefault(ckey(q[3]), []).append(q)
+            store = local_store_at(c, k)
+            for g in groups.values():
+                lines.append(lib.model_call("rebac.multi", store, c.get("rules"), local_model_reg(c.get("reg"), g[0][3]),
+                                            [[q[0], q[1], q[2]] for q in g], lims))
+                index.append((ci, k, g))
+    outs = [lib.dec(x) for x in lib.run_model("rebac", lines, chunk=max(50, len(lines) // 8 + 1))]
+    res = [[{"c12": {}, "table": []} for _ in c["steps"]] for c in cases]
+    for (ci, k, g), o in zip(index, outs):
+        if c12._bad_model(o):
+            raise RuntimeError("model rejected a local case: %r %r" % (o, cases[ci]))
+        for q, per_limit in zip(g, o):
+            m, gen = per_limit[0], per_limit[1]
+            if c12._bad_model(m) or c12._bad_model(gen):
+                raise RuntimeError("model rejected a local query: %r %r %r" % (m, q, cases[ci]))
+            res[ci][k]["c12"][qkey(*q)] = [m[0], m[1], m[2], gen[0] == "true"]
+            res[ci][k]["table"].append([q[0], q[1], q[2], q[3], ["ret", m[0] == "true"]])
+    return res
+
+
 def model_lines(cases, impls):
     lines, index = [], []
+    local_ix = [ci for ci, c in enumerate(cases) if c.get("kind") == "local"]
+    local_models = dict(zip(local_ix, model_local([cases[ci] for ci in local_ix], [impls[ci] for ci in local_ix]))) if local_ix else {}
     nest_ix = [ci for ci, c in enumerate(cases) if c.get("kind") == "nest"]
     nest_models = dict(zip(nest_ix, model_nest([cases[ci] for ci in nest_ix], [impls[ci] for ci in nest_ix]))) if nest_ix else {}
     for ci, (c, i) in enumerate(zip(cases, impls)):
         k = c.get("kind", "seq")
         if k == "nest":
             continue
-        if k == "seq":
+        if k == "local":
+            # the composed statement: the C13 model with the C12 MODEL's answers as the relationship table
+            steps = [[step["req"], local_models[ci][kk]["table"]] for kk, step in enumerate(c["steps"])]
+            dates = dates_of(c["policy"], [s["req"] for s in c["steps"]])
+            lines.append(lib.model_call("relcond.seq", bool(c.get("strict")), c["policy"], None, steps, dates))
+            index.append((ci, "seq"))
+        elif k == "seq":
             steps = []
             for step, r in zip(c["steps"], i["decisions"]):
                 steps.append([step["req"], full_table(c.get("checker"), step.get("data") or {}, c["policy"], step["req"], r["calls"])])
@@ -999,6 +1217,8 @@ def model_lines(cases, impls):
             per[ci].append(o)
     for ci, m in nest_models.items():
         per[ci] = m
+    for ci, m in local_models.items():
+        per[ci] = {"rel": per[ci], "c12": [s["c12"] for s in m]}
     return per
 
 
@@ -1136,10 +1356,96 @@ def case_key(c):
     return json.dumps(lib.jsonable({k: v for k, v in c.items() if k != "fam"}), sort_keys=True, default=str)
 
 
+def check_local(chk, c, i, m, replay=False):
+    """a real Guard over a real LocalRelationshipChecker.  Per decision:
+    (i)   every lookup the engine made, against the C12 model on the same store / rules / registry-on-that-context /
+          limits: c12's own judgement (True for a triple not derivable within max_depth, or a different answer although
+          no limit fired in the model's run = violation; True where the model's run ends by the node budget = broken
+          correspondence);
+    (ii)  the whole Decision against the C13 model whose relationship table is the C12 MODEL's answers (the composed
+          statement): a permit the composed model does not give = violation (c13_local_permit_rule_derivable: a permit
+          rests on an applicable permit rule, a rel-guarded one on a derivable triple); then everything the other
+          families judge per decision (canonical lookups, at most once, Decision, ordered log, context key order);
+    (iii) evaluate_sync and evaluate_async: same decisions, same lookups, same answers."""
+    verdicts = []
+    allkeys = [set(qkey(*x["q"]) for x in r["calls"]) for r in i["decisions"]]
+    for k, (step, r, tw, mm, cm) in enumerate(zip(c["steps"], i["decisions"], i["twin"], m["rel"], m["c12"])):
+        nv, nc = len(chk.violations), len(chk.corr_breaks)
+        where = {"step": k, "api": c.get("api", "async"), "limits": c.get("limits"), "tuples_in_store": len(local_store_at(c, k))}
+        show = {"where": where, "decision": r["decision"], "lookups": [x["q"] + [x.get("ans")] for x in r["calls"]]}
+        for x in r["calls"]:
+            if x["dec"] != k and c.get("api") != "sync_in_loop":
+                chk.violation("a lookup made during one decision carries the context of another decision", c,
+                              impl={"step": k, "call": x["q"], "tagged": x["dec"]})
+        # (i) the real local checker's answers to the engine's lookups
+        judged = set()
+        for world, rr in (("the case's API", r), ("the other API", tw)):
+            for x in rr["calls"]:
+                mq = cm[qkey(*x["q"])]
+                binds = mq[3] and mq[0] != "true"
+                if world == "the case's API":
+                    chk.count("local:lookup:%s%s" % (mq[0], "/limit-binds" if binds else ""))
+                    chk.count("local:visits:%s" % (mq[1] if mq[1] < 4 else "4-9" if mq[1] < 10 else "10+"))
+                jv = c12.judge(x.get("ans"), mq[:3])
+                if jv and (jv[1], qkey(*x["q"])) not in judged:
+                    judged.add((jv[1], qkey(*x["q"])))
+                    text = "LocalRelationshipChecker asked by the Guard (%s, %s): %s" % (world, x["via"], jv[1])
+                    mshow = {"c12_model": {"outcome": mq[0], "visits": mq[1], "derivable_within_max_depth": mq[2],
+                                           "true_under_generous_limits": mq[3]},
+                             "registry_on_the_lookups_context": lib.jsonable(local_model_reg(c.get("reg"), x["q"][3]))}
+                    if jv[0] == "violation":
+                        chk.violation(text + " [c12_sound / c12_exact; c13_rel_never_true_without_derivation, "
+                                      "c13_rel_holds_iff_derivable]", c, impl=dict(show, lookup=x["q"], answer=x.get("ans")), model=mshow)
+                    else:
+                        chk.corr_break(text, c, impl=dict(show, lookup=x["q"], answer=x.get("ans")), model=mshow,
+                                       theorems=c12.THMS + LOCAL_THEOREMS)
+        # (ii) the composed statement
+        D, mp_ = r["decision"], mm["pure"]
+        others = set().union(*([s for j, s in enumerate(allkeys) if j != k] or [set()]))
+        if isinstance(D, dict) and D.get("allowed") and mp_ != ["Ood"] and not (isinstance(mp_, dict) and mp_.get("allowed")):
+            chk.violation("permit by a Guard over the local checker although the policy, with every rel node judged by what the "
+                          "local-checker model answers for its canonical lookup (derivability from the tuple store within "
+                          "max_depth, caveats on the merged context; limits only fail closed), does not permit "
+                          "(c13_local_permit_rule_derivable, c13_local_permit_rests_on_derivation)", c, impl=show,
+                          model={"decision": mm["decision"], "by_derivability": mp_, "log": mm["log"],
+                                 "canonical_queries": mm["queries"], "c12_model": cm})
+            v = "violation"
+        else:
+            v = judge_decision(chk, c, where, c["policy"], step["req"], "local", r, mm, others, replay)
+        # (iii) the two ways of evaluating
+        if v != "ood":
+            a = (norm_dec(r["decision"]), [x["q"] + [x.get("ans")] for x in r["calls"]])
+            b = (norm_dec(tw["decision"]), [x["q"] + [x.get("ans")] for x in tw["calls"]])
+            if a != b:
+                chk.violation("evaluate_sync and evaluate_async over the same store, local checker and policy give different "
+                              "decisions or lookups (c13_sync_async_same)", c,
+                              impl={"where": where, "case_api": {"decision": a[0], "lookups": a[1]},
+                                    "other_api": {"decision": b[0], "lookups": b[1]}})
+        exp = step.get("expect")
+        if exp is not None and v != "ood":
+            got = {"allowed": D.get("allowed") if isinstance(D, dict) else None,
+                   "lookups": [x["q"] + [x.get("ans")] for x in r["calls"]]}
+            if got["allowed"] != exp.get("allowed") or ("lookups" in exp and lib.jsonable(got["lookups"]) != lib.jsonable(exp["lookups"])):
+                chk.violation("corpus witness: the decision or the lookups differ from the recorded ones (expected %s)"
+                              % json.dumps(lib.jsonable(exp), sort_keys=True)[:400], c, impl=show, model={"by_derivability": mp_})
+        chk.count("local:decision:" + ("raise" if not isinstance(D, dict) else str(D.get("effect"))))
+        chk.count("local:lookups:%d" % min(len(r["calls"]), 6))
+        if len(chk.violations) > nv:
+            v = "violation"
+        elif len(chk.corr_breaks) > nc:
+            v = "corr"
+        verdicts.append(v)
+        if v in ("violation", "corr"):
+            break
+    return verdicts
+
+
 def check_one(chk, c, i, m, replay=False):
     """returns list of verdicts"""
     kind = c.get("kind", "seq")
     verdicts = []
+    if kind == "local":
+        return check_local(chk, c, i, m, replay)
     if kind == "seq":
         allkeys = [set(qkey(*x["q"]) for x in r["calls"]) for r in i["decisions"]]
         for k, (step, r, mm) in enumerate(zip(c["steps"], i["decisions"], m)):
@@ -1282,6 +1588,23 @@ def variants_of(c):
                 e["data"] = d
             v["fam"] = c.get("fam", "?") + "/variant"
             out.append(v)
+    elif c.get("kind") == "local":
+        # limits that do not bind (the exactness theorems apply), and other request-level caveat contexts
+        def variant(**kw):
+            v = copy.deepcopy(c)
+            for s in v["steps"]:
+                s.pop("expect", None)
+            v.update(kw)
+            v["fam"] = c.get("fam", "?") + "/variant"
+            return v
+        for lims in ([8, 10000], [None, None], [50, 10000], [1, 10000], [8, 3]):
+            if lims != c.get("limits"):
+                out.append(variant(limits=lims))
+        for rb in LOCAL_REBAC:
+            v = variant()
+            for s in v["steps"]:
+                s["req"]["context"] = ctx_with_rebac(copy.deepcopy(rb), {k: x for k, x in (s["req"].get("context") or {}).items() if k != "_rebac"})
+            out.append(v)
     return out
 
 
@@ -1386,7 +1709,7 @@ def _check_cases(chk, cases, replay=False, search=True):
             chk.traces += len(i["records"])
             nontriv = len(i["records"]) > len(c["roots"])
         chk.mark(case_key(c), bool(nontriv))
-        if c.get("kind", "seq") in ("seq", "conc"):
+        if c.get("kind", "seq") in ("seq", "conc", "local"):
             chk.traces += len(i["decisions"])
         chk.sample({"case": c, "impl": i if c.get("kind") != "conc" else {"decisions": i["decisions"][:2]}}, every=499)
         if "corr" in vs:
@@ -1815,6 +2138,184 @@ def f23_cases():
     return [seq_case("F25", pol, [mkreq(ctx={"_rebac": {"t": t}})], "sync", [{"mode": "has_dt"}])]
 
 
+# ---- the local checker behind the Guard (stores, rule maps and registries are c12's; rel leaves, trees, policies c13's) ----
+LOCAL_REBAC = ["<absent>", None] + c12.HCTXS[1:] + [{"ip": "10.0.0.1"}, {"ip": "8.8.8.8", "ok": True},
+                                                     {"hour": 22, "ip": "10.0.0.1", "ok": False}]
+LOCAL_NODE_CTX = ["<absent>", "<absent>", {}, {"ok": True}, {"ok": False}, {"hour": 10}, {"hour": 22}, {"hour": "x"},
+                  {"ip": "10.0.0.1"}, {"ip": "1.2.3.4", "ok": 0}, {"ok": True, "hour": 12}, {"ok": 1, "z": [1]}]
+LOCAL_LIMITS = [[8, 10000], [8, 10000], [None, None], [4, 10000], [3, 10000], [2, 10000], [1, 10000], [0, 10000], [-1, 10000],
+                [8, 1], [8, 2], [8, 3], [8, 5], [8, 10], [2, 4], [50, 10000], [8, 0]]
+LOCAL_SEED_REGS = [None, {"c1": "T", "c2": "F"}, {"c1": "ctx", "c2": "nok"}, {"c1": "hour", "c2": "R", "": "T"},
+                   {"c1": "office", "c2": "get"}]
+_ROLES = {"viewer": c12.un("this", c12.cu("editor"), c12.ttu("parent", "viewer")),
+          "editor": c12.un("this", c12.cu("owner")), "owner": "this"}
+RL_RULES = {"doc": _ROLES, "folder": _ROLES}          # theories/RelLocal.v: rl_rules, rl_store (alice / bob / carol)
+RL_STORE = [["folder:a", "parent", "doc:7", None], ["folder:root", "parent", "folder:a", None],
+            ["user:alice", "owner", "folder:root", None], ["user:bob", "viewer", "doc:8", None],
+            ["user:carol", "viewer", "doc:7", "office"]]
+
+
+def local_case(fam, store, rules, reg, limits, policy, steps, strict=False, api="async"):
+    return {"fam": fam, "kind": "local", "store": [list(t) for t in store], "rules": rules, "reg": reg, "limits": list(limits),
+            "policy": policy, "strict": strict, "api": api, "steps": steps}
+
+
+def local_req(q, rebac="<absent>", team=None, parent=None, int_id=False, action="read"):
+    """the request whose canonical (subject, resource) are those of the c12 query q = [subject, relation, resource]"""
+    s, _r, o = q
+    sid = s[5:] if s.startswith("user:") else s
+    rtype, _, rid = o.partition(":")
+    if int_id and rid.isdigit() and str(int(rid)) == rid:
+        rid = int(rid)
+    return mkreq(sid=sid, rtype=rtype, rid=rid, sattrs={"team": team} if team is not None else {},
+                 rattrs={"parent": parent} if parent is not None else {}, ctx=ctx_with_rebac(copy.deepcopy(rebac)), action=action)
+
+
+def anywhere(pol):
+    for r in pol["rules"]:
+        r["resource"] = {}
+    return pol
+
+
+def local_leaves(rng, rels, subjects, objects, store=()):
+    """rel leaves (c13's node forms) whose relations, overrides and contexts are the store's and the predicates'"""
+    sub_lit = list(subjects) + [s[5:] for s in subjects if s.startswith("user:")]
+    obj_lit = list(objects) + [o.partition(":")[2] for o in objects if ":" in o]
+    grants = [t for t in store if t[1] in ("viewer", "editor", "owner", "member")]
+    weaker = {"owner": ["owner", "editor", "viewer"], "editor": ["editor", "viewer"], "viewer": ["viewer"], "member": ["member", "viewer"]}
+    out = []
+    for _ in range(rng.choice([2, 3, 4, 5])):
+        x, rel = rng.random(), rng.choice(rels)
+        if x < 0.25:
+            out.append({"rel": rel})
+        elif x < 0.45:
+            out.append(node(rel, ctx=rng.choice(LOCAL_NODE_CTX)))
+        elif x < 0.7 and grants:
+            # a stored grant, asked for the role itself or one it implies, on the object or on something it contains
+            t = rng.choice(grants)
+            below = [e[2] for e in store if e[1] == "parent" and e[0] == t[2]]
+            out.append(node(rng.choice(weaker[t[1]]), subject=t[0], resource=rng.choice([t[2]] + below),
+                            ctx=rng.choice(LOCAL_NODE_CTX + [{"ok": True, "hour": 10, "ip": "10.0.0.1"}])))
+        else:
+            so = rng.choice(["<absent>", "<absent>", {"attr": "subject.attrs.team"}, {"attr": "subject.id"}, rng.choice(sub_lit), rng.choice(sub_lit)])
+            ro = rng.choice(["<absent>", "<absent>", {"attr": "resource.attrs.parent"}, {"attr": "resource.id"}, rng.choice(obj_lit), rng.choice(obj_lit)])
+            out.append(node(rel, subject=so, resource=ro, ctx=rng.choice(LOCAL_NODE_CTX)))
+    return out
+
+
+def local_enumerated(chk):
+    quick = chk.tier == "quick"
+    apis = ["async", "sync", "sync_in_loop"]
+    out = []
+    # 1. the example of theories/RelLocal.v (viewer <- editor <- owner, parent folders, carol's office caveat):
+    #    who x request-level caveat context x limits x registry x policy form
+    viewer = {"rel": "viewer"}
+    pols = [single(viewer),
+            single(node("viewer", ctx={"ip": "10.0.0.1"})),                      # the node's ctx wins over context._rebac
+            single({"or": [node("viewer", ctx={"ip": "8.8.8.8", "site": "hq"}), {"rel": "owner"}]}),   # ... also when it is the wrong one
+            {"id": "p", "algorithm": "deny-overrides", "rules": [rule("view", viewer), rule("noedit", {"not": {"rel": "editor"}}, "deny", actions=["write"]),
+                                                               rule("edit", {"rel": "editor"}, "permit", actions=["write"])]},
+            single({"or": [{"rel": "owner"}, {"and": [viewer, node("viewer", subject="user:alice", resource={"attr": "resource.attrs.parent"})]}]},
+                   algo="permit-overrides")]
+    part = []
+    n = 0
+    for rb, lims, reg, (pi, pol) in itertools.product(["<absent>", {"ip": "10.0.0.1"}, {"ip": "8.8.8.8"}],
+                                                      [[8, 10000], [4, 10000], [3, 10000], [8, 3], [None, None], [8, 4]],
+                                                      [{"office": "office"}, {}, None, {"office": "R"}], enumerate(pols)):
+        n += 1
+        steps = [{"req": local_req(["user:" + who, "viewer", "doc:7"], rb, parent="folder:a", int_id=True,
+                                   action="write" if (pi == 3 and who in ("alice", "bob")) else "read")}
+                 for who in ("alice", "bob", "carol", "dave")]
+        part.append(local_case("local:example", RL_STORE, RL_RULES, reg, lims, copy.deepcopy(pol), steps, api=apis[n % 3]))
+    out += [c for k, c in enumerate(part) if not quick or k % 3 == chk.seed % 3]
+    # 2. c12's hand-picked store shapes (chains, cycles, self-loops, fan-out, duplicates, caveated edges and direct tuples,
+    #    shipped-helper rule maps, ...) x registries x operator contexts x limits
+    part = []
+    names = list(OPCTX)
+    n = 0
+    for name, store, rules in c12.seeds():
+        caveated = any(t[3] is not None for t in store)
+        subs = [t[0] for t in store if ":" in t[0]] or ["user:a"]
+        objs = [t[2] for t in store] or ["doc:1"]
+        for reg in (LOCAL_SEED_REGS if caveated else LOCAL_SEED_REGS[:1]):
+            for j in range(3):
+                n += 1
+                a = {"rel": "viewer"}
+                b = node(["viewer", "editor"][n % 2], subject=subs[n % len(subs)], resource=objs[n % len(objs)],
+                         ctx=LOCAL_NODE_CTX[n % len(LOCAL_NODE_CTX)])
+                pol = anywhere(single(OPCTX[names[n % len(names)]](copy.deepcopy(a), copy.deepcopy(b)),
+                                      algo=["deny-overrides", "permit-overrides", "first-applicable"][n % 3]))
+                steps = [{"req": local_req(q, LOCAL_REBAC[(n + qi) % len(LOCAL_REBAC)], int_id=bool(n % 2))}
+                         for qi, q in enumerate([["user:a", "viewer", "doc:1"], ["user:b", "viewer", "doc:1"],
+                                                 ["user:a", "viewer", "folder:1"], ["user:a", "viewer", "doc:2"]])]
+                part.append(local_case("local:shape:" + name, store, rules, reg, LOCAL_LIMITS[n % len(LOCAL_LIMITS)], pol, steps,
+                                       api=apis[n % 3]))
+    out += [c for k, c in enumerate(part) if not quick or k % 2 == chk.seed % 2]
+    # 3. widely shared resources: a document with w direct viewers / a group of w members granted the document, and a
+    #    subject who holds the same relation elsewhere only
+    for w in range(2, 15):
+        people = [["user:v%d" % i, "viewer", "doc:pub", None] for i in range(w)] + [["user:eve", "viewer", "doc:own", None]]
+        group = ([["user:v%d" % i, "member", "group:all", None] for i in range(w)] +
+                 [["user:eve", "member", "group:small", None], ["group:all", "granted", "doc:pub", None],
+                  ["group:small", "granted", "doc:own", None]])
+        asks = [["user:eve", "viewer", "doc:pub"], ["user:v0", "viewer", "doc:pub"], ["user:eve", "viewer", "doc:own"],
+                ["user:v%d" % (w - 1), "viewer", "doc:own"]]
+        for store, rules in ((people, {"doc": {"viewer": c12.un("this", c12.cu("editor")), "editor": c12.un("this")}}),
+                             (group, {"doc": {"viewer": c12.un("this", c12.ttu("granted", "member"))}, "group": {"member": c12.un("this")}})):
+            pol = single({"rel": "viewer"}) if w % 2 else single({"or": [node("viewer", subject="user:eve", resource="doc:pub"), {"rel": "viewer"}]})
+            out.append(local_case("local:shared", store, rules, None, [8, 10000], pol, [{"req": local_req(q)} for q in asks], api=apis[w % 3]))
+    # 4. relationships granted between two decisions of the same engine over the same checker and store
+    for k, api in enumerate(apis):
+        alice, carol = local_req(["user:alice", "viewer", "doc:7"], int_id=True), local_req(["user:carol", "viewer", "doc:7"], {"ip": "10.0.0.1"})
+        out.append(local_case("local:granted-later", [t for t in RL_STORE if t[0] not in ("user:alice", "user:carol")], RL_RULES,
+                              {"office": "office"}, [8, 10000], single({"rel": "viewer"}),
+                              [{"req": alice}, {"req": carol}, {"req": alice, "add": [RL_STORE[2]]}, {"req": carol},
+                               {"req": carol, "add": [RL_STORE[4]]}, {"req": alice}], api=api))
+        out.append(local_case("local:granted-later", RL_STORE[2:], RL_RULES, {"office": "office"}, [None, None],
+                              single({"and": [{"rel": "viewer"}, {"not": {"rel": "owner"}}]}),
+                              [{"req": alice}, {"req": alice, "add": [RL_STORE[0]]}, {"req": alice, "add": [RL_STORE[1]]},
+                               {"req": alice, "add": [["user:alice", "owner", "doc:7", "office"]]},
+                               {"req": local_req(["user:alice", "viewer", "doc:7"], {"ip": "10.0.0.1"})}], api=api))
+    return out
+
+
+def local_random(chk, n):
+    """c12's layered stores (containment hierarchies, group grants, cycles, duplicates, caveats) under random policies
+    built by c13's generators from rel leaves over the store's own subjects / objects / relations"""
+    rng = chk.rng
+    out = []
+    for _ in range(n):
+        store, rules, _reg, queries = c12.gen_layered(rng)
+        for t in store:
+            if t[3] is None and rng.random() < 0.2:
+                t[3] = rng.choice(c12.CAVS)
+        reg = {cav: rng.choice(c12.HKINDS + ["office", "office"]) for cav in c12.CAVS if rng.random() < 0.85}
+        if rng.random() < 0.08:
+            reg = None
+        if rng.random() < 0.15:
+            rules = c12.RULE_POOL[rng.randrange(len(c12.RULE_POOL))]
+        queries = queries + [[t[0], t[1], t[2]] for t in store if t[1] not in ("parent", "granted")][:4]
+        subjects = sorted({t[0] for t in store})
+        objects = sorted({t[2] for t in store} | {q[2] for q in queries})
+        rels = sorted({q[1] for q in queries} | {"viewer", "editor", "owner", "member"})
+        pol = rand_policy(rng, local_leaves(rng, rels, subjects, objects, store))
+        later = []
+        if rng.random() < 0.3 and len(store) > 1:
+            k = rng.randint(1, len(store) - 1)
+            store, later = store[:k], store[k:]
+        reqs = [local_req(rng.choice(queries), rng.choice(LOCAL_REBAC), team=rng.choice([None, None] + subjects),
+                          parent=rng.choice([None, None] + objects), int_id=rng.random() < 0.3,
+                          action=rng.choice(["read", "read", "read", "write"])) for _ in range(rng.choice([1, 2, 3]))]
+        if rng.random() < 0.5 or later:
+            reqs.append(copy.deepcopy(reqs[0]))
+        steps = [{"req": r} for r in reqs]
+        if later:
+            steps[-1]["add"] = later
+        out.append(local_case("local:random", store, rules, reg, rng.choice(LOCAL_LIMITS), pol, steps, strict=rng.random() < 0.15,
+                              api=rng.choice(["async", "async", "sync", "sync_in_loop"])))
+    return out
+
+
 def corpus_cases():
     out = []
     for f in sorted((lib.VERIF / "corpus" / "C13").glob("*.json")):
@@ -1833,12 +2334,19 @@ def run(chk):
                 "with the data changed between decisions), seeded random condition trees in random policies/sets, "
                 "asyncio.gather and threads over two engines with complementary data, slow checkers with the time-out "
                 "patched down, eval_condition with the context variables set by hand (memo on / off / not a dict), and "
-                "_ctx_hash equality vs the model's canonical form over all pairs of a context pool. non-trivial = at least "
-                "one lookup reached a checker (or a hash pair); distinct = distinct case")
+                "_ctx_hash equality vs the model's canonical form over all pairs of a context pool; and the C13 x C12 "
+                "composition tied to the code: a real Guard over a real LocalRelationshipChecker / InMemoryRelationshipStore "
+                "(c12's store shapes, rule maps and caveat registries; rel leaves over the store's subjects / objects / "
+                "relations; limits that bind or not; relationships granted between decisions), every lookup judged by the C12 "
+                "model, the Decision by the C13 model fed the C12 model's answers, evaluate_sync against evaluate_async. "
+                "non-trivial = at least one lookup reached a checker (or a hash pair); distinct = distinct case")
     chk.assumptions = ["the decision cache is off (cache=None): reuse of whole cached decisions is C08's subject",
                        "relationship checkers raise only Exception subclasses and return JSON-like values",
                        "attribution of a lookup to its decision uses a harness ContextVar carried by the engine's own context "
-                       "propagation (asyncio tasks, asyncio.to_thread, run_coroutine_threadsafe)"]
+                       "propagation (asyncio tasks, asyncio.to_thread, run_coroutine_threadsafe)",
+                       "local-checker family: deadline_ms = %d (wall-clock time never binds; the model's clock never reaches the "
+                       "deadline); caveat predicates are pure functions of the call's context raising only Exception subclasses"
+                       % LOCAL_DEADLINE_MS]
     chk.extra.setdefault("timing_dependent_not_reproduced", 0)
     cases = corpus_cases() + f23_cases()
     cases += enumerated(chk)
@@ -1848,6 +2356,7 @@ def run(chk):
     cases += overlap_cases(chk)
     cases += cond_cases(chk)
     cases += hash_cases(chk)
+    cases += local_enumerated(chk)
     chk.exhaustive = True
     check_cases(chk, cases)
     n = 3000 if quick else 40000
@@ -1855,5 +2364,9 @@ def run(chk):
         k = min(n, 4000)
         check_cases(chk, random_cases(chk, k))
         n -= k
+    # the local checker behind the Guard, seeded random part (drawn last: the streams of the families above are unchanged)
+    if len(chk.violations) < 20:
+        check_cases(chk, local_random(chk, 250 if quick else 5000))
+    chk.extra["local_checker_cases"] = sum(v for k, v in chk.dist.items() if k.startswith("fam:local:") or k.startswith("fam:corpus:local"))
     chk.extra["decisions_checked"] = chk.traces
     chk.extra["f23_switch"] = "datetime and its str() share a memo key" if f23_present() else "datetimes kept apart (repaired)"
